@@ -109,6 +109,9 @@ def cmd_check(prop_id, tier):
         M = Model(P)
         models[c] = M
         nbodies += len(P.bodies)
+    import opview
+    if tier == "thorough":
+        opview.DEPTH["max_visits"], opview.DEPTH["inline"] = 3, 2
     try:
         for c in configs:
             ctx.use(c, models[c])
